@@ -167,8 +167,14 @@ Init == /\ inst \in {i \in DOMAIN InstSeq : i % NShards = Shard /\ (WFOnly => We
         /\ order = <<>> /\ phase = "writing" /\ model = <<>>
 N == Len(InstSeq[inst])
 Remaining == (1..N) \ Range(order)
+Mod1(x) == ((x - 1) % N) + 1
 Allowed ==
-    IF OrderMode = "all" THEN Remaining
+    IF OrderMode = "all" /\ N <= 5 THEN Remaining
+    ELSE IF OrderMode = "all" THEN
+         \* more than five definitions: every rotation, in both directions (2N of the N! orders)
+         IF order = <<>> THEN Remaining
+         ELSE IF Len(order) = 1 THEN {Mod1(order[1] + 1), Mod1(order[1] - 1)} \cap Remaining
+         ELSE {Mod1(order[Len(order)] + (IF Mod1(order[1] + 1) = order[2] THEN 1 ELSE N - 1))} \cap Remaining
     ELSE IF OrderMode = "one" THEN (IF Remaining = {} THEN {} ELSE {CHOOSE i \in Remaining : \A j \in Remaining : i <= j})
     ELSE \* "two": ascending, descending, or rotated by one (a forward reference across the cut)
          IF order = <<>> THEN {1, N, 2} \cap Remaining
